@@ -102,6 +102,21 @@ def judge(it, ob, ot, op, os_):
         vals = [v[1] for v in sols.values()]
         if max(vals) - min(vals) > TOL * 10 * (1 + abs(vals[0])):
             res['fails'].append({'ob': 'doors-disagree-on-optimum', 'values': {k: str(v[1]) for k, v in sols.items()}, 'point': None})
+    # the continuous pipe chains (RealSolver = Clarabel; standard form -> tableau -> step-by-step simplex) on models
+    # whose compiled form is continuous: same verdict class and optimum as the one-shot solver
+    for chain in ('real', 'steps'):
+        oc = op.get('_' + chain)
+        if oc is None or not oks.get('text') or not lin.lm_is_continuous(lins['text']['ok']):
+            continue
+        sc = sol_summary(oc.get('solve') or oc.get('err'))
+        ref_s = sols['solver']
+        res['chains'] = res.get('chains', 0) + 1
+        if sc[0] in ('panic-or-hang', 'missing'):
+            res['fails'].append({'ob': 'pipe-chain-panic-or-no-result', 'chain': chain, 'point': None})
+        elif (sc[0] == 'ok') != (ref_s[0] == 'ok'):
+            res['fails'].append({'ob': 'pipe-chain-disagrees-on-verdict', 'chain': chain, 'chain_verdict': sc[0], 'solver_verdict': ref_s[0], 'point': None})
+        elif sc[0] == 'ok' and m['obj']['dir'] != 'solve' and abs(sc[1] - ref_s[1]) > Fraction(1, 10 ** 5) * (1 + abs(ref_s[1])):
+            res['fails'].append({'ob': 'pipe-chain-disagrees-on-optimum', 'chain': chain, 'values': [str(sc[1]), str(ref_s[1])], 'point': None})
     # the shared answer is judged against the source by the C03 oracle
     if os_ is not None:
         r3 = c03.judge({'model': m, 'idx': 0}, os_)
@@ -146,10 +161,13 @@ def work(chunk):
         jobs.append({'cmd': 'text', 'src': it['src'], 'want': []})
         jobs.append({'cmd': 'pipe', 'src': it['src'], 'solver': 'auto'})
         jobs.append({'cmd': 'solve_text', 'src': it['src']})
+        jobs.append({'cmd': 'pipe', 'src': it['src'], 'solver': 'real'})
+        jobs.append({'cmd': 'pipe', 'src': it['src'], 'solver': 'steps'})
     outs = run_driver(jobs)
     results = []
     for i, it in enumerate(chunk):
-        o = outs[6 * i: 6 * i + 6]
+        o = outs[8 * i: 8 * i + 8]
+        o[4] = dict(o[4], _real=o[6], _steps=o[7])
         try:
             ob = {'obj_last': o[0], 'obj_first': o[1], 'with_all': o[2]}
             r = judge(it, ob, o[3], o[4], o[5])
@@ -388,6 +406,7 @@ def main(prop='C16'):
         for k in stats:
             stats[k] += p['stats'][k]
     by_status, tw, todo = {}, [0, 0], []
+    chains_run = sum(r.get('chains', 0) for r in results)
     for r in results:
         by_status[r['status']] = by_status.get(r['status'], 0) + 1
         it = items[r['idx']]
@@ -466,7 +485,7 @@ def main(prop='C16'):
     evidence = {
         'level': 'translation_validation', 'tier': t, 'seed': sd,
         'coverage': {
-            'programs': len(items), 'front_door_runs': 6 * len(items), 'by_status': by_status, 'disagreements_checked': stats['queries'], 'queries': stats,
+            'programs': len(items), 'front_door_runs': 8 * len(items), 'continuous_pipe_chain_runs_judged': chains_run, 'by_status': by_status, 'disagreements_checked': stats['queries'], 'queries': stats,
             'obligations_per_program': ['all doors accept or all reject', 'pairwise projection equivalence of the compiled linear models (exists/forall) for builder x3 orders, text, pipe',
                                         'same verdict and optimum from builder.solve_with(Auto), PipeRunner(auto) and RoocSolver; the answer judged against the source by the C03 oracle queries',
                                         'evaluated: builder call order gives the identical model; text and pipe models identical row for row; handle / name / eval read-back agree; unused builder variables inside their domain'],
@@ -475,7 +494,7 @@ def main(prop='C16'):
             'samples': [it['src'] for it in items[:3]], 'exhaustive': False,
             'family': 'every 4th member of the C03 family (all members in the thorough tier) expressed through every door; 30% carry an extra unused builder variable',
             'functions_encoded': ['ModelBuilder (add_var, with, with_all, minimize/maximize/satisfy, into_model, linearize, solve_with(Auto))', 'builder Expr operators / abs,min,max,all,any', 'BuilderSolution::{var_value,numeric_value,eval,value}',
-                                  'RoocParser::parse_and_transform + Linearizer', 'PipeRunner [Compiler, PreModel, Model, LinearModel, AutoSolver]', 'RoocSolver::solve_using(auto_solver)'],
+                                  'RoocParser::parse_and_transform + Linearizer', 'PipeRunner [Compiler, PreModel, Model, LinearModel, AutoSolver | RealSolver | StandardLinearModel, Tableau, StepByStepSimplex]', 'RoocSolver::solve_using(auto_solver)'],
             'solver': 'z3 %s' % z3.get_version_string(), 'driver_build_s': round(build_s, 1), 'check_s': round(time.time() - t0, 1),
             'macro_door': {'models': len(mitems), 'by_status': mstatus, 'what': 'two models written with vars! / constraint! / expr! (every declaration rule, scalar and array; every relation and logic rule) over a grid of bounds, right-hand sides, counts and directions, compared (variable set, domains through the projection equivalence) with the same model as source text'},
             'api_constants_door': {'models': len(aitems), 'what': 'one literal lifted into a constant and supplied (a) in the where-block, (b) through the API of parse_and_transform / PipeContext / RoocSolver::solve_with_data_using, (c) derived in the where-block from an API constant; compiled models compared by projection equivalence, solver doors by verdict and optimum'},
